@@ -103,6 +103,7 @@ def execute(task):
     )
     ctx = Ctx(sched)
     want_alive = task.get("track_alive", False)
+    ctx.weak_exc = want_alive
     results = {}  # id -> weakref to result object
     alive_log = []
 
@@ -203,7 +204,7 @@ def execute(task):
         if isinstance(exc, uberjob.CallError):
             rec["err_call"] = b.id_of.get(exc.call, -1)
             cause = exc.__cause__
-            rec["err_cause"] = next((k for k, e in enumerate(ctx.exc_ids) if e is cause), -1)
+            rec["err_cause"] = next((k for k, e in enumerate(ctx.exc_ids) if e is cause or (isinstance(e, int) and e == id(cause))), -1)
         else:
             rec["exc_repr"] = repr(exc)[:300]
     elif out["outcome"] == "returned":
